@@ -330,6 +330,9 @@ def transpose2d(op, input):
 
 @register_qbytestensor_op([torch.ops.aten.view, torch.ops.aten._unsafe_view])
 def view(op, input, *shape):
+    if len(shape) == 1 and isinstance(shape[0], torch.dtype):
+        # view(dtype) reinterprets the bytes of a tensor: it cannot be applied to the codes
+        return qfallback(op, input, *shape)
     if input.axis is None:
         # The view is transparent for QTensor with scalar scales
         out_data = op(input._data, *shape)
